@@ -74,12 +74,15 @@ def run_func_processes(input, func=None, config=None, name=None, compute_id=None
     return func(input, config=config)
 
 
-def unpickle_and_call(f, inp, **kwargs):
+def unpickle_and_call(f, inp, retries=0, **kwargs):
     import cloudpickle
 
     f = cloudpickle.loads(f)
     inp = cloudpickle.loads(inp)
     kwargs = {k: cloudpickle.loads(v) for k, v in kwargs.items()}
+    if retries != 0:
+        retryer = Retrying(reraise=True, stop=stop_after_attempt(retries + 1))
+        return retryer(f, inp, **kwargs)
     return f(inp, **kwargs)
 
 
@@ -179,7 +182,9 @@ class ThreadsExecutor(DagExecutor):
             concurrent_executor.shutdown(wait=False)
 
 
-def processes_create_futures_func(concurrent_executor, function: Callable[..., Any]):
+def processes_create_futures_func(
+    concurrent_executor, function: Callable[..., Any], retries: int = 2
+):
     def create_futures_func(input, **kwargs):
         # Pickle the function, args, and kwargs using cloudpickle.
         # They will be unpickled by unpickle_and_call.
@@ -192,6 +197,7 @@ def processes_create_futures_func(concurrent_executor, function: Callable[..., A
                         unpickle_and_call,
                         cloudpickle.dumps(function),
                         cloudpickle.dumps(i),
+                        retries,
                         **pickled_kwargs,
                     )
                 ),
@@ -265,7 +271,7 @@ class ProcessesExecutor(DagExecutor):
         )
         try:
             create_futures_func = processes_create_futures_func(
-                concurrent_executor, run_func_processes
+                concurrent_executor, run_func_processes, kwargs.pop("retries", 2)
             )
             await async_map_dag(
                 create_futures_func,
